@@ -34,7 +34,8 @@ type Case struct {
 	N       int       `json:"n"`
 	Outc    []string  `json:"outc"`
 	Variant string    `json:"variant"`
-	Reach   *bool     `json:"reach"` // false: ask for a version no chain leads to
+	Layout  string    `json:"layout"` // "perhook" (default) | "split": one hook, two conversion bindings for the CRD
+	Reach   *bool     `json:"reach"`  // false: ask for a version no chain leads to
 	Invoked []Invoked `json:"invoked"`
 	Status  string    `json:"status"`
 	Msg     Msg       `json:"msg"`
